@@ -2,6 +2,7 @@ package hubnet
 
 import (
 	"fmt"
+	"os"
 	"strings"
 	"sync"
 	"time"
@@ -105,13 +106,22 @@ func (l *slowLogger) active() bool {
 	return len(l.rules) > 0
 }
 
+var logPrint = os.Getenv("VERIF_LOGPRINT") != "" // development aid: print every line of the library's log
+var logT0 = time.Now()
+
 func (l *slowLogger) args(args ...interface{}) {
+	if logPrint {
+		fmt.Printf("LOG %6dms %s", time.Since(logT0).Milliseconds(), fmt.Sprintln(args...))
+	}
 	if l.active() {
 		l.line(strings.TrimSpace(fmt.Sprintln(args...)))
 	}
 }
 
 func (l *slowLogger) format(f string, args ...interface{}) {
+	if logPrint {
+		fmt.Printf("LOG %6dms %s\n", time.Since(logT0).Milliseconds(), fmt.Sprintf(f, args...))
+	}
 	if l.active() {
 		l.line(fmt.Sprintf(f, args...))
 	}
